@@ -8,6 +8,7 @@ package main
 import (
 	"fmt"
 	"math/rand"
+	"strings"
 
 	"seehuhn.de/go/postscript/funit"
 	"seehuhn.de/go/sfnt/glyph"
@@ -339,15 +340,20 @@ func u16s(n, base int) []uint16 {
 
 // Shape is the parameter vector enumerated by TLC.
 type Shape struct {
-	K string `json:"k"`
-	N int    `json:"n"`
-	M int    `json:"m"`
-	C int    `json:"c"`
-	V int    `json:"v"`
+	K   string `json:"k"`
+	N   int    `json:"n"`
+	M   int    `json:"m"`
+	C   int    `json:"c"`
+	V   int    `json:"v"`
+	T   string `json:"t,omitempty"`   // k = "off": the subtable format, e.g. "gsub5_2"
+	Big string `json:"big,omitempty"` // k = "off": the component that is made >= 64 KiB
 }
 
 // buildShape returns the lookup type and the subtable of a shape.
 func buildShape(sh Shape, gpos bool) (int, gtab.Subtable, error) {
+	if sh.K == "off" {
+		return buildOff(sh.T, sh.Big)
+	}
 	n, m, c, v := sh.N, sh.M, sh.C, sh.V
 	g := shapeGlyphs(n, c, 0)
 	ctxType := func(base int) int {
@@ -591,4 +597,278 @@ func spreadFull(n int) []glyph.ID {
 		g[i] = glyph.ID(i)
 	}
 	return g
+}
+
+// ---- one component beyond 64 KiB ----------------------------------------------------------
+
+const bigN = 32768 // glyphs 0, 2, ..., 65534: a format-1 coverage table of 4 + 65536 bytes
+
+// bigClassDef: alternating classes over 32800 consecutive glyphs: format 1, 6 + 65600 bytes.
+func bigClassDef() classdef.Table {
+	t := classdef.Table{}
+	for i := 0; i < 32800; i++ {
+		t[glyph.ID(100+i)] = uint16(1 + i%2)
+	}
+	return t
+}
+
+func smallClassDef() classdef.Table { return classdef.Table{5: 1, 6: 2, 9: 1} }
+
+func fullVR(i int) *gtab.GposValueRecord {
+	return &gtab.GposValueRecord{XPlacement: funit.Int16(1 + i%100), YPlacement: 2, XAdvance: 3, YAdvance: 4,
+		XPlacementDevOffs: 5, YPlacementDevOffs: 6, XAdvanceDevOffs: 7, YAdvanceDevOffs: 8}
+}
+
+func u16seq(n int) []uint16 {
+	r := make([]uint16, n)
+	for i := range r {
+		r[i] = uint16(i % 2)
+	}
+	return r
+}
+
+// buildOff builds a subtable of format t in which the component big has at least 64 KiB and
+// everything else is small (spec/LookupLayoutShapes.tla, OffCases).
+func buildOff(t, big string) (int, gtab.Subtable, error) {
+	bad := fmt.Errorf("no builder for format %s with big %s", t, big)
+	small := covTable(spread(2))
+	act := actions(1)
+	lt := map[string]int{"gsub1_2": 1, "gsub2_1": 2, "gsub3_1": 3, "gsub4_1": 4, "gsub5_1": 5, "gsub5_2": 5, "gsub5_3": 5,
+		"gsub6_1": 6, "gsub6_2": 6, "gsub6_3": 6, "gsub8_1": 8, "gpos1_2": 1, "gpos2_1": 2, "gpos2_2": 2, "gpos3_1": 3,
+		"gpos4_1": 4, "gpos6_1": 6, "gpos7_1": 7, "gpos7_2": 7, "gpos7_3": 7, "gpos8_1": 8, "gpos8_2": 8, "gpos8_3": 8}[t]
+	if lt == 0 {
+		return 0, nil, bad
+	}
+	nullSets := strings.HasSuffix(big, ",nullSets")
+	big = strings.TrimSuffix(big, ",nullSets")
+	ctx := t
+	if len(t) == 7 && (t[:5] == "gpos7" || t[:5] == "gpos8") {
+		ctx = "gsub" + string(rune(t[4]-2)) + t[5:]
+	}
+	switch ctx {
+	case "gsub1_2":
+		return lt, &gtab.Gsub1_2{Cov: covTable(spread(bigN)), SubstituteGlyphIDs: gids(bigN, 1)}, nil
+	case "gsub2_1", "gsub3_1":
+		var cov coverage.Table
+		var seq [][]glyph.ID
+		switch big {
+		case "coverage":
+			cov = covTable(spread(bigN))
+			seq = make([][]glyph.ID, bigN)
+			for i := range seq {
+				seq[i] = []glyph.ID{glyph.ID(i)}
+			}
+		case "sequences":
+			cov, seq = small, [][]glyph.ID{gids(bigN, 1), gids(3, 2)}
+		default:
+			return 0, nil, bad
+		}
+		if ctx == "gsub2_1" {
+			return lt, &gtab.Gsub2_1{Cov: cov, Repl: seq}, nil
+		}
+		return lt, &gtab.Gsub3_1{Cov: cov, Alternates: seq}, nil
+	case "gsub4_1":
+		switch big {
+		case "coverage":
+			return lt, &gtab.Gsub4_1{Cov: covTable(spread(bigN)), Repl: make([][]gtab.Ligature, bigN)}, nil
+		case "ligatureSets":
+			return lt, &gtab.Gsub4_1{Cov: small, Repl: [][]gtab.Ligature{{{In: gids(bigN, 1), Out: 7}}, {{In: gids(1, 2), Out: 8}}}}, nil
+		case "ligatures":
+			return lt, &gtab.Gsub4_1{Cov: covTable(spread(1)), Repl: [][]gtab.Ligature{{{In: gids(bigN, 1), Out: 7}, {In: gids(1, 2), Out: 8}}}}, nil
+		}
+	case "gsub5_1":
+		switch big {
+		case "coverage":
+			return lt, &gtab.SeqContext1{Cov: covTable(spread(bigN)), Rules: make([][]*gtab.SeqRule, bigN)}, nil
+		case "ruleSets":
+			return lt, &gtab.SeqContext1{Cov: small, Rules: [][]*gtab.SeqRule{{{Input: gids(bigN, 1), Actions: act}}, {{Input: gids(1, 2), Actions: act}}}}, nil
+		case "rules":
+			return lt, &gtab.SeqContext1{Cov: covTable(spread(1)), Rules: [][]*gtab.SeqRule{{{Input: gids(bigN, 1), Actions: act}, {Input: gids(1, 2), Actions: act}}}}, nil
+		}
+	case "gsub5_2":
+		l := &gtab.SeqContext2{Cov: small, Input: smallClassDef(),
+			Rules: [][]*gtab.ClassSeqRule{{{Input: u16seq(1), Actions: act}}, {{Input: u16seq(2), Actions: act}}}}
+		switch big {
+		case "coverage":
+			l.Cov = covTable(spread(bigN))
+		case "classDef":
+			l.Input = bigClassDef()
+		case "ruleSets":
+			l.Rules[0][0].Input = u16seq(bigN)
+		case "rules":
+			l.Rules = [][]*gtab.ClassSeqRule{{{Input: u16seq(bigN), Actions: act}, {Input: u16seq(2), Actions: act}}}
+		default:
+			return 0, nil, bad
+		}
+		if nullSets {
+			l.Rules = [][]*gtab.ClassSeqRule{nil, nil}
+		}
+		return lt, l, nil
+	case "gsub5_3":
+		switch big {
+		case "coverages":
+			return lt, &gtab.SeqContext3{Input: []coverage.Set{covSet(spread(bigN)), covSet(spread(3))}, Actions: act}, nil
+		case "seqLookupRecords":
+			return lt, &gtab.SeqContext3{Input: []coverage.Set{covSet(spread(2)), covSet(spread(3))}, Actions: actions(16384)}, nil
+		}
+	case "gsub6_1":
+		rule := func(n int) *gtab.ChainedSeqRule {
+			return &gtab.ChainedSeqRule{Backtrack: gids(n, 1), Input: gids(1, 2), Lookahead: gids(1, 3), Actions: act}
+		}
+		switch big {
+		case "coverage":
+			return lt, &gtab.ChainedSeqContext1{Cov: covTable(spread(bigN)), Rules: make([][]*gtab.ChainedSeqRule, bigN)}, nil
+		case "ruleSets":
+			return lt, &gtab.ChainedSeqContext1{Cov: small, Rules: [][]*gtab.ChainedSeqRule{{rule(bigN)}, {rule(1)}}}, nil
+		case "rules":
+			return lt, &gtab.ChainedSeqContext1{Cov: covTable(spread(1)), Rules: [][]*gtab.ChainedSeqRule{{rule(bigN), rule(1)}}}, nil
+		}
+	case "gsub6_2":
+		rule := func(n int) *gtab.ChainedClassSeqRule {
+			return &gtab.ChainedClassSeqRule{Backtrack: u16seq(1), Input: u16seq(1), Lookahead: u16seq(n), Actions: act}
+		}
+		l := &gtab.ChainedSeqContext2{Cov: small, Backtrack: smallClassDef(), Input: smallClassDef(), Lookahead: smallClassDef(),
+			Rules: [][]*gtab.ChainedClassSeqRule{{rule(1)}, {rule(2)}}}
+		switch big {
+		case "coverage":
+			l.Cov = covTable(spread(bigN))
+		case "backtrackClassDef":
+			l.Backtrack = bigClassDef()
+		case "inputClassDef":
+			l.Input = bigClassDef()
+		case "lookaheadClassDef":
+			l.Lookahead = bigClassDef()
+		case "ruleSets":
+			l.Rules[0][0] = rule(bigN)
+		case "rules":
+			l.Rules = [][]*gtab.ChainedClassSeqRule{{rule(bigN), rule(2)}}
+		default:
+			return 0, nil, bad
+		}
+		if nullSets {
+			l.Rules = [][]*gtab.ChainedClassSeqRule{nil, nil}
+		}
+		return lt, l, nil
+	case "gsub6_3":
+		pair := func(b bool) []coverage.Set {
+			if b {
+				return []coverage.Set{covSet(spread(bigN)), covSet(spread(3))}
+			}
+			return []coverage.Set{covSet(spread(2))}
+		}
+		l := &gtab.ChainedSeqContext3{Backtrack: pair(big == "backtrackCoverages"), Input: pair(big == "inputCoverages"),
+			Lookahead: pair(big == "lookaheadCoverages"), Actions: act}
+		if big == "seqLookupRecords" {
+			l.Actions = actions(16384)
+		}
+		return lt, l, nil
+	case "gsub8_1":
+		pair := func(b bool) []coverage.Table {
+			if b {
+				return []coverage.Table{covTable(spread(bigN)), covTable(spread(3))}
+			}
+			return []coverage.Table{covTable(spread(2))}
+		}
+		l := &gtab.Gsub8_1{Input: small, SubstituteGlyphIDs: gids(2, 1), Backtrack: pair(big == "backtrackCoverages"),
+			Lookahead: pair(big == "lookaheadCoverages")}
+		if big == "coverage" {
+			l.Input, l.SubstituteGlyphIDs = covTable(spread(bigN)), gids(bigN, 1)
+		}
+		return lt, l, nil
+	case "gpos1_2":
+		n := 4200
+		if big == "coverage" {
+			n = bigN
+		}
+		adj := make([]*gtab.GposValueRecord, n)
+		for i := range adj {
+			if big == "coverage" {
+				adj[i] = &gtab.GposValueRecord{XAdvance: funit.Int16(1 + i%50)}
+			} else {
+				adj[i] = fullVR(i)
+			}
+		}
+		return lt, &gtab.Gpos1_2{Cov: covTable(spread(n)), Adjust: adj}, nil
+	case "gpos2_1":
+		l := gtab.Gpos2_1{}
+		switch big {
+		case "coverage":
+			for i := 0; i < bigN; i++ {
+				l[glyph.Pair{Left: glyph.ID(2 * i), Right: 1}] = &gtab.PairAdjust{First: &gtab.GposValueRecord{XAdvance: 5}}
+			}
+		case "pairSets":
+			for i := 0; i < 2100; i++ {
+				l[glyph.Pair{Left: 4, Right: glyph.ID(i)}] = &gtab.PairAdjust{First: fullVR(i), Second: fullVR(i + 1)}
+			}
+			l[glyph.Pair{Left: 8, Right: 1}] = &gtab.PairAdjust{First: fullVR(1), Second: fullVR(2)}
+		default:
+			return 0, nil, bad
+		}
+		return lt, l, nil
+	case "gpos2_2":
+		l := &gtab.Gpos2_2{Cov: covSet(spread(2)), Class1: smallClassDef(), Class2: smallClassDef()}
+		k := 3
+		switch big {
+		case "coverage":
+			l.Cov = covSet(spread(bigN))
+		case "classDef1":
+			l.Class1 = bigClassDef()
+		case "classDef2":
+			l.Class2 = bigClassDef()
+		case "classMatrix":
+			k = 100
+		default:
+			return 0, nil, bad
+		}
+		for i := 0; i < k; i++ {
+			row := make([]*gtab.PairAdjust, k)
+			for j := range row {
+				row[j] = &gtab.PairAdjust{First: &gtab.GposValueRecord{XPlacement: 1, XAdvance: funit.Int16(1 + i)},
+					Second: &gtab.GposValueRecord{XPlacement: 2, XAdvance: funit.Int16(1 + j)}}
+			}
+			l.Adjust = append(l.Adjust, row)
+		}
+		return lt, l, nil
+	case "gpos3_1":
+		n := 4100
+		if big == "coverage" {
+			n = bigN
+		} else if big != "anchors" {
+			return 0, nil, bad
+		}
+		rec := make([]gtab.EntryExitRecord, n)
+		for i := range rec {
+			if big == "anchors" {
+				rec[i] = gtab.EntryExitRecord{Entry: anch(true, i%100), Exit: anch(true, i%90)}
+			}
+		}
+		return lt, &gtab.Gpos3_1{Cov: covTable(spread(n)), Records: rec}, nil
+	case "gpos4_1", "gpos6_1":
+		nm, nb := 2, 2
+		switch big {
+		case "markCoverage":
+			nm = bigN
+		case "baseCoverage":
+			nb = bigN
+		case "markArray":
+			nm = 6600
+		case "baseArray":
+			nb = 8200
+		default:
+			return 0, nil, bad
+		}
+		marks := make([]markarray.Record, nm)
+		for i := range marks {
+			marks[i] = markarray.Record{Class: 0, Table: anch(true, i%100)}
+		}
+		arr := make([][]anchor.Table, nb)
+		for i := range arr {
+			arr[i] = []anchor.Table{anch(big == "baseArray" || nb == 2, i%100)}
+		}
+		if ctx == "gpos4_1" {
+			return lt, &gtab.Gpos4_1{MarkCov: covTable(spread(nm)), BaseCov: covTable(spread(nb)), MarkArray: marks, BaseArray: arr}, nil
+		}
+		return lt, &gtab.Gpos6_1{Mark1Cov: covTable(spread(nm)), Mark2Cov: covTable(spread(nb)), Mark1Array: marks, Mark2Array: arr}, nil
+	}
+	return 0, nil, bad
 }
